@@ -60,6 +60,16 @@ def oracle_run(cfg):
     X = r.standard_normal((cfg.get('nb', 2), cfg.get('C', 2), cfg['H'], cfg['W']))
     m = SWTForward(J=cfg['J'], wave=cfg['wave'], mode=cfg['mode'])
     try:
+        if cfg['seed'] % 3 == 1:
+            # the module first holds ANOTHER wavelet of the same length and is run once; then the filters of cfg['wave'] are loaded
+            # into its buffers (load_state_dict copies in place): the transform is a function of the filters it holds now
+            L = pywt.Wavelet(cfg['wave']).dec_len
+            other = [w for w in pywt.wavelist(kind='discrete') if pywt.Wavelet(w).dec_len == L and w != cfg['wave']]
+            if other:
+                m2 = SWTForward(J=cfg['J'], wave=other[cfg['seed'] % len(other)], mode=cfg['mode'])
+                m2(torch.tensor(X))
+                m2.load_state_dict(m.state_dict())
+                m = m2
         out = m(torch.tensor(X))
     except Exception as e:
         return dict(error='%s: %s' % (type(e).__name__, str(e)[:200]))
@@ -77,6 +87,10 @@ def oracle_run(cfg):
             ok, msg = tol_close(y.numpy(), want, sc)
             if not ok:
                 return dict(detail='level %d differs from pywt.swt2: %s' % (j + 1, msg))
+        if cfg['seed'] % 3 == 0:
+            msg = pow2_homog(lambda dt: (lambda a, m2=SWTForward(J=cfg['J'], wave=cfg['wave'], mode=cfg['mode']).to(dt): m2(a[0])), [torch.tensor(X)])
+            if msg:
+                return dict(detail=msg)
         return None
     sh = cfg['sh']
     out2 = m(torch.tensor(np.roll(X, (sh[0], sh[1]), axis=(-2, -1))))
